@@ -685,6 +685,7 @@ fn gen_req(r: &mut Rng, spec: &FontSpec, g: &G0) -> Req {
         pre: vec![],
         post: vec![],
         nf_vs: None,
+        ptem: None,
     }
 }
 
